@@ -9,6 +9,8 @@ callees that only (un)register, `runNested` for callees that also call the proto
 themselves or ask for the dispatcher from inside a callback —, `Driver/RandomTripDriver.lean`).  The `oracle_*` functions read the property directly off the
 implementation's log, independently of the model."""
 import copy
+import dataclasses
+import functools
 import itertools
 import json
 import logging
@@ -122,6 +124,28 @@ class _quiet_root:
         root.setLevel(self.saved[1])
 
 
+class _Plug:
+    """a plugin written as a class: its handlers are METHODS, and `plug.on` is evaluated anew wherever it is
+    used (`register(self.on)` in start(), `unregister(self.on)` in stop()): equal bound-method objects, never
+    the identical one"""
+
+    def __init__(self, run, hid):
+        self.run, self.hid = run, hid
+
+    def on(self, instance, *args):
+        return self.run.invoke(["h", self.hid], instance, args, None)
+
+
+@dataclasses.dataclass(frozen=True)
+class _ValueHandler:
+    """a callable value object (a callable dataclass): built anew for every request, equal by value"""
+    run: object
+    hid: int
+
+    def __call__(self, instance, *args):
+        return self.run.invoke(["h", self.hid], instance, args, None)
+
+
 def rop_is_request(rop):
     return rop[0] in ("reg", "unreg", "register", "unregister")
 
@@ -168,24 +192,55 @@ class _DispRun:
         self.serial = 0
         self.sim = case.get("sim")
         self.eff_ops, self.eff_results = [], []
+        # "styles": {hid: kind of callable the handler is} (default: one closure kept by the harness);
+        # "rebound": kinds of callback for which every protocol instance has bound an implementation of its own
+        # choice to itself (`self.handle_packet = self._handle_packet_as_sink`, role / state pattern) when it
+        # was constructed, i.e. before anybody asked for a dispatcher
+        self.styles = case.get("styles") or {}
+        self.rebound = list(case.get("rebound") or [])
+        self.plugs = {}
         run = self
+
+        def cls_or_own(kind):
+            # the class-level method is the protocol's own method unless the instance exposes another one
+            return "cls" if kind in run.rebound else "own"
 
         class RecProto(IProtocol):
             pid = None
 
+            def __init__(self):
+                for k in run.rebound:
+                    setattr(self, METHOD[k], getattr(self, "_as_role_" + k))
+
             def initialize(self):
-                return run.invoke("own", self, (), "initialize")
+                return run.invoke(cls_or_own("initialize"), self, (), "initialize")
 
             def handle_timer(self, timer):
-                return run.invoke("own", self, (timer,), "timer")
+                return run.invoke(cls_or_own("timer"), self, (timer,), "timer")
 
             def handle_packet(self, message):
-                return run.invoke("own", self, (message,), "packet")
+                return run.invoke(cls_or_own("packet"), self, (message,), "packet")
 
             def handle_telemetry(self, telemetry):
-                return run.invoke("own", self, (telemetry,), "telemetry")
+                return run.invoke(cls_or_own("telemetry"), self, (telemetry,), "telemetry")
 
             def finish(self):
+                return run.invoke(cls_or_own("finish"), self, (), "finish")
+
+            # the implementations an instance binds to itself (case["rebound"])
+            def _as_role_initialize(self):
+                return run.invoke("own", self, (), "initialize")
+
+            def _as_role_timer(self, timer):
+                return run.invoke("own", self, (timer,), "timer")
+
+            def _as_role_packet(self, message):
+                return run.invoke("own", self, (message,), "packet")
+
+            def _as_role_telemetry(self, telemetry):
+                return run.invoke("own", self, (telemetry,), "telemetry")
+
+            def _as_role_finish(self):
                 return run.invoke("own", self, (), "finish")
 
         self.protos = {}
@@ -312,6 +367,18 @@ class _DispRun:
 
     # ---------------------------------------------------------------------------------- requests
     def handler(self, hid):
+        """the callable that is handler hid, as the code making a request writes it down"""
+        style = self.styles.get(str(hid), "closure")
+        if style == "method":
+            if hid not in self.plugs:
+                self.plugs[hid] = _Plug(self, hid)
+            return self.plugs[hid].on            # a new bound-method object at every evaluation
+        if style == "value":
+            return _ValueHandler(self, hid)      # a new, equal object at every evaluation
+        if style == "partial":
+            if hid not in self.handlers:
+                self.handlers[hid] = functools.partial(_Plug.on, _Plug(self, hid))
+            return self.handlers[hid]
         if hid not in self.handlers:
             def handler(instance, *args, _hid=hid):
                 return self.invoke(["h", _hid], instance, args, None)
@@ -551,6 +618,11 @@ def disp_oracle(case, impl, notes=None):
                 what = "C15:repeated" if entry in [c[0] for c in res[:j]] else "C15:foreign"
                 fails.append((what, f"{where}: dispatch {k} on {p} invoked {entry} after the whole chain "
                               f"{snapshot} (as it stood when the dispatch began) had run"))
+                return
+            if entry == "cls":
+                fails.append(("C15:own-method", f"{where}: dispatch {k} on instance {p} with chain {snapshot}: the chain "
+                              "did not end in the method the instance exposed when its dispatcher was created (an "
+                              "implementation the instance had bound to itself) but in the method of its class"))
                 return
             if entry != snapshot[j]:
                 if entry in snapshot[j + 1:]:
@@ -799,6 +871,11 @@ class C15(Check):
             "delivered by the simulator through the node's encapsulator (timer set for now, packet from the courier, next "
             "mobility update), the first create_dispatcher of 60% of the nodes coming only after callbacks were delivered; "
             "initialize / telemetry of every node / finish as the simulator issues them are part of the judged history; "
+            "in 40% of the histories the handlers are other kinds of callable than a closure somebody keeps: bound methods "
+            "and callable value objects written down anew at every request (equal, never identical, to what was "
+            "registered), kept functools.partial objects; in 15% the protocol instances bound implementations of their "
+            "own to 1-5 of their callbacks when they were constructed (self.handle_packet = self._as_role_packet), before "
+            "any dispatcher was asked for: the chain must end in THAT method; "
             "thorough: every history of <= 5 ops over a 10-op "
             "alphabet x 2 behaviours, <= 4 ops over two instances; non-trivial = a dispatch over a chain of >= 3 stopped by "
             "an INTERRUPT strictly inside, with a successful re-entrant (un)registration in the same dispatch")
@@ -843,6 +920,21 @@ class C15(Check):
                 # or only up to some point of the history (a holder that goes away)
                 c["drop_at"] = 0 if x < 0.23 else r2.randrange(1, len(c["ops"]) + 1)
                 c["label"] += "/asked-again"
+            r3 = random.Random(stable_hash("disp-objects", self.prop, seed, i))
+            if r3.random() < 0.4:
+                # what KIND of callable a handler is: a closure the plugin keeps (default), a bound method written
+                # down anew at every request (`register(self.on)` ... `unregister(self.on)`), a callable value
+                # object built anew at every request, a functools.partial that is kept
+                hids = sorted({op[3] for op in c["ops"] if op[0] in ("register", "unregister")} |
+                              {rop[2] for row in c["beh"] for sc in row["scripts"] for rop in sc["ops"]
+                               if rop[0] in ("reg", "unreg")})
+                c["styles"] = {str(h): r3.choice(["method", "method", "value", "partial", "closure"]) for h in hids}
+                c["label"] += "/callables"
+            if r3.random() < 0.15:
+                # protocol instances that bound an implementation of their own choice to themselves when they
+                # were constructed (role / state pattern), before any dispatcher was asked for
+                c["rebound"] = sorted(r3.sample(KINDS, r3.choice([1, 1, 2, 5])))
+                c["label"] += "/rebound"
             yield c
         if tier == "thorough":
             yield from enum_disp(5, 0)
@@ -878,7 +970,8 @@ class C15(Check):
         return disp_interesting(case, impl)
 
     def key(self, case, impl):
-        return json.dumps([case["ops"], case.get("beh", []), case.get("drop_at"), case.get("sim")], sort_keys=True)
+        return json.dumps([case["ops"], case.get("beh", []), case.get("drop_at"), case.get("sim"), case.get("styles"),
+                           case.get("rebound")], sort_keys=True)
 
     def sample(self, case, impl):
         return {"label": case.get("label"), "beh": case.get("beh", [])[:4], "ops": eff_ops(case, impl)[:20],
@@ -891,6 +984,10 @@ class C15(Check):
         ops = eff_ops(case, impl)
         inc("ops", len(ops))
         inc("instances_total", len({op[1] for op in case["ops"]}))
+        for st in set((case.get("styles") or {}).values()):
+            inc("histories_with_handlers_of_kind_" + st)
+        if case.get("rebound"):
+            inc("histories_instances_with_self_bound_callbacks")
         if case.get("sim"):
             inc("histories_on_a_real_simulation")
             inc("ops_done_by_the_controller", len(case["ops"]))
@@ -908,6 +1005,9 @@ class C15(Check):
             inc("op_" + op[0])
             if op[0] in ("register", "unregister"):
                 inc(f"{op[0]}_{res}")
+                st = (case.get("styles") or {}).get(str(op[3]), "closure")
+                if st != "closure" and op[0] == "unregister":
+                    inc(f"unregister_{res}_of_a_{st}")
                 if drop is not None and not case.get("sim") and i >= drop and res == "ok":
                     inc(f"{op[0]}_ok_through_a_dispatcher_asked_again")
             elif op[0] == "create":
@@ -951,6 +1051,12 @@ class C15(Check):
                 cand["drop_at"] = 0
                 if still_fails(cand):
                     best, changed = cand, True
+            for extra in ("styles", "rebound"):
+                if best.get(extra):
+                    cand = copy.deepcopy(best)      # all handlers plain closures / ordinary protocol classes
+                    del cand[extra]
+                    if still_fails(cand):
+                        best, changed = cand, True
             if best.get("sim"):
                 cand = copy.deepcopy(best)      # the same history by direct calls, without a simulation
                 del cand["sim"]
@@ -1030,6 +1136,62 @@ class patched_draws:
         random.random, random.uniform = self._old
 
 
+class ProviderRefused(Exception):
+    """what the recording provider raises for a mobility command it was told to refuse (link down, vehicle
+    not ready): `IProvider.send_mobility_command` of a real provider can fail, and the caller may catch that"""
+
+
+class _TelChain:
+    """the telemetry chain of the plugin's protocol as the dispatcher is specified (C15): newest registration
+    first — the plugin's trip handler (registered when a trip is started, removed when it is finished) and
+    foreign `filter` handlers whose k-th invocation returns a scripted CONTINUE / INTERRUPT / None — and then
+    the protocol's own method.  Used by the generator's reference and by the direct predicate."""
+
+    def __init__(self):
+        self.entries = []
+
+    def start_trip(self):
+        self.stop_trip()
+        self.entries.insert(0, "trip")
+
+    def stop_trip(self):
+        self.entries = [e for e in self.entries if e != "trip"]
+
+    def add_filter(self, rets):
+        self.entries.insert(0, {"rets": list(rets), "n": 0})
+
+    def blocked(self):
+        """would the next telemetry be cut off before it reaches the trip handler"""
+        for e in self.entries:
+            if e == "trip":
+                return False
+            if (e["rets"][e["n"]] if e["n"] < len(e["rets"]) else "cont") == "interrupt":
+                return True
+        return False
+
+    def deliver(self):
+        """one telemetry: (it reaches the trip handler, it reaches the protocol's own method)"""
+        trip = False
+        for e in list(self.entries):
+            if e == "trip":
+                trip = True
+                continue
+            n = e["n"]
+            e["n"] = n + 1
+            if (e["rets"][n] if n < len(e["rets"]) else "cont") == "interrupt":
+                return trip, False
+        return trip, True
+
+
+def op_refused(op):
+    return len(op) > 1 and op[-1] == "refused" and op[0] in ("initiate", "travel")
+
+
+def case_is_adverse(case):
+    """ops the plugin model has no notion of: foreign filters in the chain, commands the provider refuses"""
+    return any(op[0] == "filter" or op_refused(op) for op in case["ops"])
+
+
 class _TripProto(IProtocol):
     def __init__(self):
         self.telemetry_calls = 0
@@ -1093,7 +1255,13 @@ def trip_run_impl(case):
     events = []     # chronological: ["cmd", index into provider.mobility] | ["begin", act] | ["end", act, outcome]
     send = provider.send_mobility_command
 
+    refusing = {"on": False, "n": 0}
+
     def recording_send(command):
+        if refusing["on"]:
+            refusing["n"] += 1
+            events.append(["refused"])
+            raise ProviderRefused("mobility command refused")
         events.append(["cmd", len(provider.mobility)])
         send(command)
     provider.send_mobility_command = recording_send
@@ -1116,6 +1284,8 @@ def trip_run_impl(case):
                 proto.handle_telemetry(Telemetry(current_position=bitsv3(op[1])))
             elif name == "travel":
                 ret = v3bits(plugin.travel_to_random_waypoint())
+            elif name == "filter":
+                create_dispatcher(proto).register_handle_telemetry(make_filter(op[1]))
             elif name == "ongoing":
                 ret = plugin.trip_ongoing
                 if not isinstance(ret, bool):
@@ -1127,6 +1297,8 @@ def trip_run_impl(case):
                 create_dispatcher(proto).register_handle_telemetry(make_hook(op[1]))
             else:
                 raise ValueError(f"unknown op {op}")
+        except ProviderRefused:
+            ret = "refused"          # the caller catches what its provider raised
         except Exception as e:
             ret = "crash:" + type(e).__name__
         return ret, [cmd_obs(c) for c in prov.mobility[n0:]], proto.telemetry_calls - own0
@@ -1180,14 +1352,30 @@ def trip_run_impl(case):
                 return DispatchReturn.CONTINUE
             return hook
 
+        def make_filter(rets):
+            """a foreign telemetry handler that never touches the plugin: its k-th invocation returns rets[k]"""
+            state = {"n": 0}
+
+            def telemetry_filter(instance, telemetry):
+                ret = rets[state["n"]] if state["n"] < len(rets) else "cont"
+                state["n"] += 1
+                return {"cont": DispatchReturn.CONTINUE, "interrupt": DispatchReturn.INTERRUPT, "none": None}[ret]
+            return telemetry_filter
+
         for i, op in enumerate(case["ops"]):
             run_peer_ops(i)
             n0, e0 = len(provider.mobility), len(events)
-            ret, cmds, own = step(plugin, proto, provider, op)
-            if op[0] == "hook" and ret is None:
+            refusing["on"], refusing["n"] = op_refused(op), 0
+            try:
+                ret, cmds, own = step(plugin, proto, provider, op)
+            finally:
+                refusing["on"] = False
+            if op[0] in ("hook", "filter") and ret is None:
                 hooks += 1
             h = chain_probe(plugin)
             res = {"ret": ret, "cmds": cmds, "own": own, "h": None if h is None else h - hooks}
+            if refusing["n"]:
+                res["refused"] = refusing["n"]
             if case.get("hooked"):
                 res["events"] = [(["cmd", cmds[e[1] - n0]] if e[0] == "cmd" else e) for e in events[e0:]]
             results.append(res)
@@ -1222,9 +1410,10 @@ def trip_oracle_one(cfg, ops, results, used, hooked, who):
     tol = bitsf(cfg["tol"])
     ongoing, target, ever = False, None, False
     total_cmds = 0
+    chain = _TelChain()
     for i, (op, res) in enumerate(zip(ops, results)):
         name, ret, cmds = op[0], res["ret"], res["cmds"]
-        total_cmds += len(cmds)
+        total_cmds += len(cmds) + res.get("refused", 0)
         if isinstance(ret, str) and ret.startswith("crash:"):
             fails.append((f"C17:{ret}", f"op {i} {name} raised {ret[6:]} (trip ongoing: {ongoing}, trips so far: {ever})"))
             continue
@@ -1239,15 +1428,27 @@ def trip_oracle_one(cfg, ops, results, used, hooked, who):
                 slack = 4 * math.ulp(max(abs(lo), abs(hi), 1e-300))
                 if not (lo - slack <= v <= hi + slack):
                     fails.append(("C17:out-of-box", f"op {i} {name}: waypoint {p} has {axis}={v!r} outside [{lo!r}, {hi!r}]"))
-        if name == "initiate":
+        if ret == "refused":
+            # the provider raised for the goto of this call and the caller caught it: no trip was started by
+            # this call, nothing was sent; trip, target and handlers are what they were before it
+            if cmds:
+                fails.append(("C17:unexpected-command", f"op {i}: {name} was refused by the provider but "
+                              f"{len(cmds)} command(s) arrived"))
+        elif name == "initiate":
             if len(pts) != 1:
                 fails.append(("C17:initiate-commands", f"op {i}: initiate sent {len(cmds)} commands"))
             ongoing, ever = True, True
+            chain.start_trip()               # a trip that is started is registered now: newest handler
             target = pts[-1] if pts else target
         elif name == "finish":
             if cmds:
                 fails.append(("C17:unexpected-command", f"op {i}: finish sent {len(cmds)} commands"))
             ongoing = False
+            chain.stop_trip()
+        elif name == "filter":
+            if cmds:
+                fails.append(("C17:unexpected-command", f"op {i}: registering a foreign handler sent commands"))
+            chain.add_filter(op[1])
         elif name == "travel":
             if len(cmds) != 1 or cmds[0] != ret:
                 fails.append(("C17:returned-differs", f"op {i}: travel returned {ret} but the provider received {cmds}"))
@@ -1289,9 +1490,18 @@ def trip_oracle_one(cfg, ops, results, used, hooked, who):
                         target = p
         elif name == "tel":
             pos = bitsv3(op[1])
-            if res["own"] != 1:
-                fails.append(("C17:own-calls", f"op {i}: the protocol's own handle_telemetry ran {res['own']} times"))
-            if not ongoing:
+            reaches_trip, reaches_own = chain.deliver()
+            if res["own"] != (1 if reaches_own else 0):
+                fails.append(("C17:own-calls", f"op {i}: the protocol's own handle_telemetry ran {res['own']} times"
+                              + ("" if reaches_own else " although a handler registered before it interrupted the chain")))
+            if ongoing and not reaches_trip:
+                # a handler registered AFTER the trip was (last) started returned INTERRUPT: this telemetry is not
+                # reported to the plugin
+                if cmds:
+                    fails.append(("C17:spurious-redraw", f"op {i}: telemetry at {pos} was interrupted by a handler "
+                                  f"registered after the trip was started, yet {len(cmds)} goto(s) were sent"))
+                    target = pts[-1] if pts else target
+            elif not ongoing:
                 if cmds:
                     fails.append(("C17:command-when-idle", f"op {i}: telemetry at {pos} with no trip ongoing "
                                   f"(trips started before: {ever}) made the plugin send {len(cmds)} goto(s)"))
@@ -1358,6 +1568,7 @@ class _Ref:
     def __init__(self, cfg, draws):
         self.cfg, self.draws, self.used = cfg, draws, 0
         self.ongoing, self.target = False, None
+        self.chain = _TelChain()
 
     def travel(self):
         d = self.draws[self.used:self.used + 3]
@@ -1367,16 +1578,24 @@ class _Ref:
         return tuple(ref_uniform(self.cfg[a][0], self.cfg[a][1], u) for a, u in zip("xyz", d))
 
     def apply(self, op):
-        if op[0] == "initiate":
+        if op_refused(op):
+            self.travel()                    # drawn, refused by the provider: nothing else changes
+        elif op[0] == "initiate":
             self.target = self.travel()
             self.ongoing = True
+            self.chain.start_trip()
         elif op[0] == "finish":
             self.ongoing = False
+            self.chain.stop_trip()
         elif op[0] == "travel":
             self.travel()
-        elif op[0] == "tel" and self.ongoing and self.target is not None:
-            if sqdist(bitsv3(op[1]), self.target) <= self.cfg["tol"] * self.cfg["tol"]:
-                self.target = self.travel()
+        elif op[0] == "filter":
+            self.chain.add_filter(op[1])
+        elif op[0] == "tel":
+            reaches_trip, _ = self.chain.deliver()
+            if reaches_trip and self.ongoing and self.target is not None:
+                if sqdist(bitsv3(op[1]), self.target) <= self.cfg["tol"] * self.cfg["tol"]:
+                    self.target = self.travel()
 
 
 def aim(r, ref, lattice, how):
@@ -1474,7 +1693,30 @@ def gen_trip(seed, max_ops=40):
     if mode == "idle-first":
         for _ in range(r.randint(1, 4)):
             ops.append(r.choice([["ongoing"], ["target"], ["finish"], ["tel", v3bits(aim(r, ref, lattice, "far"))]]))
+    # 15% of the histories: other telemetry handlers live on the same protocol (a geofence / sensor-fusion filter
+    # that returns INTERRUPT for some telemetries), registered at any moment of the history; 12%: the provider
+    # refuses the goto of some initiate on an idle plugin / of some travel (it raises, the caller catches it).
+    # Decided by a stream of their own: the other histories are what they were.
+    r4 = random.Random(stable_hash("trip-adverse", seed))
+    filtered = r4.random() < 0.15
+    refusing = r4.random() < 0.12
     while len(ops) < n:
+        y = r4.random() if (filtered or refusing) else 1.0
+        if filtered and y < 0.1:
+            op = ["filter", [r4.choice(["interrupt", "interrupt", "interrupt", "cont", "none"]) for _ in range(r4.randint(1, 10))]]
+            ops.append(op)
+            ref.apply(op)
+            continue
+        if filtered and ref.ongoing and ref.chain.blocked() and y < 0.4:
+            op = ["initiate"]                # started again while another handler sits in front of the trip's
+            ops.append(op)
+            ref.apply(op)
+            continue
+        if refusing and 0.5 <= y < 0.62:
+            op = ["travel", "refused"] if ref.ongoing else ["initiate", "refused"]
+            ops.append(op)
+            ref.apply(op)
+            continue
         x = r.random()
         if x < (0.3 if mode == "restart" else 0.12):
             op = ["initiate"]
@@ -1490,7 +1732,7 @@ def gen_trip(seed, max_ops=40):
             op = [r.choice(["ongoing", "target"])]
         ops.append(op)
         ref.apply(op)
-    hooked = r.random() < 0.12
+    hooked = r.random() < 0.12 and not filtered and not refusing    # (the reference does not follow re-entrant calls)
     if hooked:
         # foreign telemetry handlers that call the plugin from inside a dispatch (no model counterpart)
         for _ in range(r.choice([1, 1, 2])):
@@ -1546,7 +1788,12 @@ class C17(Check):
             "protocol instance and provider, like the nodes of a swarm) built from one configuration — the same "
             "RandomMobilityConfig object, equal objects or the constructor's default argument —, built before and after "
             "it and driven by short histories of their own in between its ops; the direct predicate judges every plugin on "
-            "its own; thorough: every history of <= 6 "
+            "its own; 15% of the histories: foreign telemetry handlers that never touch the plugin but return a scripted "
+            "CONTINUE / INTERRUPT / None per invocation are registered on the same protocol at any moment, and a trip "
+            "sitting behind an interrupting one is often started again (a trip that is started is the newest handler: "
+            "telemetry cut off by a handler registered after the last start is not reported to the plugin, everything "
+            "else is); 12%: the provider refuses (raises for) the goto of an initiate on an idle plugin or of a travel "
+            "and the caller catches it: nothing was started, the plugin stays idle and quiet; thorough: every history of <= 6 "
             "ops over a 7-op alphabet; non-trivial = >= 2 initiates before a finish and >= 1 arrival")
     assumptions = ["lo <= hi for the in-box theorem (random.uniform also accepts a reversed range; the check then uses the "
                    "sorted bounds)", "0 <= u < 1 for every draw", "IEEE rounding of lo + (hi - lo) * u is not formalised (the "
@@ -1561,7 +1808,12 @@ class C17(Check):
                   "skipped if that list is not there. Plugin calls made re-entrantly from foreign telemetry handlers are "
                   "outside the model: ~12% of the generated histories exercise them against the direct predicate only. "
                   "The model describes one plugin: the further plugins built from the same configuration (40% of the "
-                  "histories) are judged by the direct predicate only, the plugin of the history by both. ")
+                  "histories) are judged by the direct predicate only, the plugin of the history by both. "
+                  "Histories with foreign filter handlers or refused commands are judged by the direct predicate only. "
+                  "Not generated: a refused goto of an initiate while a trip is ONGOING (the pinned code then cannot "
+                  "finish or restart: findings/F17c_C17_refused_reinitiate_candidate.json), a refused goto of a redraw. "
+                  "A restart issued by an earlier handler of the same telemetry dispatch is exercised, but whether the "
+                  "same telemetry may then draw once more is not decided by the property text and not judged. ")
     modelled = ["gradysim/protocol/plugin/random_mobility.py", "gradysim/protocol/plugin/dispatcher.py",
                 "gradysim/protocol/position.py (squared_distance)"]
     quick_n = 1500
@@ -1579,8 +1831,9 @@ class C17(Check):
         return trip_run_impl(case)
 
     def model_input(self, case, impl):
-        if case.get("hooked"):
-            return None      # re-entrant plugin calls from foreign handlers: direct predicate only
+        if case.get("hooked") or case_is_adverse(case):
+            return None      # re-entrant plugin calls from foreign handlers, foreign filters in the chain, commands
+            #                  the provider refuses: direct predicate only
         # the model is given the very stream the implementation consumed (prescribed prefix first)
         draws = impl["draws"] + case["draws"][len(impl["draws"]):]
         return {"kind": "randomtrip", "cfg": case["cfg"], "draws": draws, "ops": case["ops"]}
@@ -1649,17 +1902,33 @@ class C17(Check):
         if bitsf(cfg["tol"]) > 1e154:
             inc("tolerance_whose_square_exceeds_the_float_range")
         ongoing, seen_init = False, False
+        chain = _TelChain()
+        if case_is_adverse(case):
+            inc("histories_with_foreign_filters_or_refused_commands")
         for op, res in zip(case["ops"], impl["results"]):
             inc("op_" + op[0])
             inc("waypoints", len(res["cmds"]))
             if isinstance(res["ret"], str) and res["ret"].startswith("crash"):
                 inc(res["ret"])
-            if op[0] == "initiate":
+            if op_refused(op):
+                inc(f"{op[0]}_refused_by_the_provider_" + ("trip_ongoing" if ongoing else "idle"))
+            elif op[0] == "filter":
+                chain.add_filter(op[1])
+            elif op[0] == "tel" and not case.get("hooked") and any(e != "trip" for e in chain.entries):
+                reaches_trip, _ = chain.deliver()
+                if ongoing:
+                    inc("tel_trip_" + ("cut_off_before_the_trip_handler" if not reaches_trip else
+                                       ("redraw" if res["cmds"] else "quiet") + "_with_filters_in_the_chain"))
+            elif op[0] == "initiate":
+                if ongoing and chain.blocked():
+                    inc("initiate_while_ongoing_behind_an_interrupting_filter")
+                chain.start_trip()
                 inc("initiate_while_ongoing" if ongoing else "initiate_fresh")
                 ongoing, seen_init = True, True
             elif op[0] == "finish":
                 inc("finish_ongoing" if ongoing else "finish_idle")
                 ongoing = False
+                chain.stop_trip()
             elif op[0] == "tel" and case.get("hooked"):
                 inc("tel_with_foreign_handlers_" + ("commands" if res["cmds"] else "quiet"))
             elif op[0] == "tel":
